@@ -387,6 +387,11 @@ def main(argv=None):
         os.makedirs(os.path.join(VERIF_ROOT, "evidence"), exist_ok=True)
         with open(os.path.join(VERIF_ROOT, "evidence", f"{pid}.json"), "w") as fh:
             json.dump(evidence, fh, indent=1, sort_keys=True)
+        if args.tier == "thorough":
+            # keep the record of the deep run next to the file that the next quick run rewrites
+            os.makedirs(os.path.join(VERIF_ROOT, "evidence", "thorough"), exist_ok=True)
+            with open(os.path.join(VERIF_ROOT, "evidence", "thorough", f"{pid}.json"), "w") as fh:
+                json.dump(evidence, fh, indent=1, sort_keys=True)
 
     for an, a in agg.items():
         log(f"[{pid}/{an}] evaluations={a['evaluations']} nontrivial={len(a['nontrivial'])} "
